@@ -24,6 +24,8 @@ pub enum LoadError {
     InvalidIncludeGlob(#[from] glob::PatternError),
     #[error("failed to match glob pattern")]
     GlobFailure(#[from] glob::GlobError),
+    #[error("file {0} is included recursively")]
+    RecursiveInclude(PathBuf),
 }
 
 /// Loader is an object to keep loading a given file and may recusrively load them as `repr::LedgerEntry`,
@@ -76,13 +78,14 @@ impl<F: FileSystem> Loader<F> {
         Deco: syntax::decoration::Decoration,
     {
         let popts = parse::ParseOptions::default().with_error_style(self.error_style.clone());
-        self.load_impl(&popts, &self.source, &mut callback)
+        self.load_impl(&popts, &self.source, &mut Vec::new(), &mut callback)
     }
 
     fn load_impl<T, E, Deco>(
         &self,
         parse_options: &parse::ParseOptions,
         path: &Path,
+        ancestors: &mut Vec<PathBuf>,
         callback: &mut T,
     ) -> Result<(), E>
     where
@@ -93,10 +96,14 @@ impl<F: FileSystem> Loader<F> {
         let path: Cow<'_, Path> = self.filesystem.canonicalize_path(path);
         #[cfg(feature = "verif")]
         crate::verif::emit("load.enter", || format!("{}", path.display()));
+        if ancestors.iter().any(|x| x == path.as_ref()) {
+            return Err(LoadError::RecursiveInclude(path.into_owned()).into());
+        }
         let content = self
             .filesystem
             .file_content_utf8(&path)
             .map_err(|err| LoadError::IO(err, path.clone().into_owned()))?;
+        ancestors.push(path.clone().into_owned());
         for parsed in parse::parse_ledger(parse_options, &content) {
             let (ctx, entry) =
                 parsed.map_err(|e| LoadError::Parse(e, path.clone().into_owned()))?;
@@ -128,13 +135,14 @@ impl<F: FileSystem> Loader<F> {
                     #[cfg(feature = "verif")]
                     crate::verif::emit("load.include", || format!("{}|{:?}", target, paths));
                     for path in &paths {
-                        self.load_impl(parse_options, path, callback)?;
+                        self.load_impl(parse_options, path, ancestors, callback)?;
                     }
                     Ok(())
                 }
                 _ => callback(&path, &ctx, &entry),
             }?;
         }
+        ancestors.pop();
         Ok(())
     }
 }
